@@ -509,6 +509,22 @@ impl Gen<'_> {
             self.ecall_number_in_overwritten_local(ctx);
             return;
         }
+        if self.r.chance(1, 14) {
+            // the number of the service makes a round trip through the save area that uscratch
+            // points to (two slots): the value analysis follows it through its memory facts
+            let n = *self.r.pick(&[1i64, 1, 11, 10, 93]);
+            self.emit(format!("csrr {}, uscratch", self.reg("t0")));
+            self.emit(format!("li {}, {n}", self.reg("t1")));
+            self.emit(format!("sw {}, 0({})", self.reg("t1"), self.reg("t0")));
+            self.emit(format!("lw {}, 0({})", self.reg("t2"), self.reg("t0")));
+            self.emit(format!("sw {}, 4({})", self.reg("t2"), self.reg("t0")));
+            self.emit(format!("lw {}, 4({})", self.reg("a7"), self.reg("t0")));
+            self.emit(format!("li {}, 7", self.reg("a0")));
+            self.emit("ecall".into());
+            ctx.defined.retain(|r| r.starts_with('s') || *r == "zero");
+            ctx.defined.push("a0");
+            return;
+        }
         let n = if self.cfg.discipline == 2 && self.r.chance(1, 4) {
             None
         } else {
